@@ -4,7 +4,7 @@ import json, os, sys
 sys.path.insert(0, os.path.dirname(os.path.dirname(os.path.abspath(__file__))))
 
 PY = '/venv/bin/python'
-E2E_EXTRA = (' Also: legacy S3Transfer front-end on real threads with schedule-independent oracles where the property names it; a thin real-scale class (unscaled ChunksizeAdjuster, MiB payloads) in C01/C02; exhaustive single-fault / single-preemption enumeration over a fixed scenario matrix in C03-C06; line-granularity preemption (sys.monitoring) in a quarter of the C04/C08/C10/C18 cases.')
+E2E_EXTRA = (' Also: legacy S3Transfer front-end on real threads with schedule-independent oracles where the property names it; a thin real-scale class (unscaled ChunksizeAdjuster, MiB payloads) in C01/C02; exhaustive single-fault / single-preemption enumeration over a fixed scenario matrix in C03-C06; line-granularity preemption (sys.monitoring): drawn line numbers in a quarter and dense mode in another quarter of the C04/C08/C10/C18 cases, every executed line of a fixed scenario matrix in C08; request latency in virtual time in C04/C05/C07/C08/C10/C11/C18; coverage-guided campaigns (atheris) over the same strategy and oracle in every check.')
 E2E_NOTE = 'Trusted: vt/detsched.py (scheduler, threading/time shims, executor with ThreadPoolExecutor semantics), vt/fakes3.py (fake S3 + botocore body protocol), vt/fakefs.py (in-memory FS behind OSUtils), scaled ChunksizeAdjuster limits. Verdict = held on every generated case; evidence reports counts, classes and samples.'
 
 def e2e(text, tech, ref):
@@ -25,10 +25,10 @@ CHECKS = {
                 text='Path downloads under faults in open/write/close/rename and requests, cancels and schedules; the destination is checked after EVERY file-system mutation (each is a crash point) and the directory when the future is done.',
                 technique='property-based testing: fault plans + schedules, invariant checked at every file-system mutation'),
     'C07': e2e('Every cancellation entry point (future.cancel from a second thread, shutdown(cancel, msg), exception / KeyboardInterrupt leaving the with-block, Ctrl-C while parked in result()/shutdown()) at generated steps x schedules; oracle on exception type+message, zero requests for not-started transfers, cleanups, racing success must be complete.', 'Hypothesis cancel points + schedules, outcome oracle', 'DESIGN.md 4/C07'),
-    'C08': e2e('Recording subscribers (1-3 per transfer, some raising, some supplying size) x all outcomes x schedules; oracle on callback steps versus the fake-S3 call log (once, ordered, after the work, result() not blocking, no progress after done).', 'Hypothesis cases + schedules, trace-order oracle', 'DESIGN.md 4/C08'),
+    'C08': e2e('Recording subscribers (1-3 per transfer, some raising, some supplying size) x all outcomes x schedules; oracle on callback steps versus the fake-S3 call log (once, ordered, after the work, result() not blocking, no progress after done); coordinator-level two-thread scenarios and a fixed matrix of whole transfers with one forced preemption at every executed source line.', 'Hypothesis cases + schedules, trace-order oracle', 'DESIGN.md 4/C08'),
     'C09': e2e('Progress accounting under body rewinds, suppressed signing reads, aws-chunked wrapper, stream retries and a scaled aggregation threshold; oracle sum==size, running sum in [0,size]; plus a ReadFileChunk reference-model machine (read/seek/enable/disable sequences) and a differential validation of the fake body protocol against a real botocore client answered locally.', 'Hypothesis cases + reference cursor model', 'DESIGN.md 4/C09; 10'),
-    'C10': e2e('2-6 concurrent transfers with limits biased to 1 under PCT/walk/preempt schedules; oracle at every step from begin/end events and instrumented executors (in-flight requests, stage of each request, queue occupancy, executor wiring, single writer).', 'Hypothesis cases + schedules, step-wise counting oracle', 'DESIGN.md 4/C10'),
-    'C11': e2e('Stream uploads and non-seekable ranged downloads sharing a manager with in-memory limits 1-3; step-wise oracle on bytes read awaiting a finished part, download window per transfer and in sum, pending writes.', 'Hypothesis cases + schedules, step-wise bound oracle', 'DESIGN.md 4/C11'),
+    'C10': e2e('2-6 concurrent transfers with limits biased to 1 (one case in eight: 5-10 transfers, limits of 5-10 incl. the defaults) under PCT/walk/preempt schedules, request latency in virtual time; oracle at every step from begin/end events and instrumented executors (in-flight requests, stage of each request, queue occupancy, executor wiring, single writer).', 'Hypothesis cases + schedules, step-wise counting oracle', 'DESIGN.md 4/C10'),
+    'C11': e2e('Stream uploads and non-seekable ranged downloads sharing a manager with in-memory limits 1-3, 0-1 planted fault and 0-1 cancel; step-wise oracle on in-memory part tasks queued or running (whatever the outcome), bytes read awaiting a finished part, download window per transfer and in sum, pending writes.', 'Hypothesis cases + schedules, step-wise bound oracle', 'DESIGN.md 4/C11'),
     'C12': dict(cat='exploration', ref='DESIGN.md 4/C12', note='Reference model written from the statement; sequential histories run on an inline shim (blocking = failure), blocking histories and quiescence under vt/detsched.py. Exhaustive only for the stated depth/tags/capacities.',
                 text='SlidingWindowSemaphore/TaskSemaphore versus a reference model: exhaustive DFS over all operation sequences (<=3 tags, capacity 1..3) to depth 7 (quick) / 9 (thorough), Hypothesis sequences beyond, blocking histories under the deterministic scheduler, and quiescence of every manager semaphore after end-to-end runs.',
                 technique='model-based testing: exhaustive DFS + Hypothesis sequences vs reference model; schedule search for lost wake-ups'),
@@ -36,7 +36,7 @@ CHECKS = {
                 text='Discrete-event simulation in virtual time on the real LeakyBucket/BandwidthLimitedStream (1-8 streams, adversarial read sizes/think times, late wake-ups, streams abandoned while parked) with an oracle over the history of reads and requested sleeps; plus end-to-end transfers with max_bandwidth set.',
                 technique='property-based testing: generated virtual-time histories, history oracle (window rate bound, bounded single wait, no delay below limit)'),
     'C14': dict(cat='exploration', ref='DESIGN.md 4/C14', note='Exhaustive on the scaled arithmetic domain only; real scale is sampled at boundaries; end-to-end requests from the TransferManager with a scaled adjuster.',
-                text='Part-planning validity predicates: exhaustive scaled domain for calculate_num_parts/calculate_range_parameter/ChunksizeAdjuster, boundary-biased real-scale points to 5 TiB / 6 GiB, and the Range/CopySourceRange/PartNumber/body sizes of requests actually issued.',
+                text='Part-planning validity predicates: exhaustive scaled domain for calculate_num_parts/calculate_range_parameter/ChunksizeAdjuster, boundary-biased real-scale points to 5 TiB / 8 GiB (the full 9 x 13 boundary product as data-less copies), and the Range/CopySourceRange/PartNumber/body sizes of requests actually issued.',
                 technique='exhaustive enumeration + property-based testing with validity predicates'),
     'C15': dict(cat='exploration', ref='DESIGN.md 4/C15', note='Differential oracle = input shapes of the installed botocore S3 service model; stated exceptions (copy HeadObject mapping, full-object checksums, CRC32 default) written from the property.',
                 text='Exhaustive over the finite cell space (method x mode x size discovered/provided x request_checksum_calculation x every allowed argument alone, every checksum-family subset, all together; every foreign S3 member name rejected) on the TransferManager, differential against botocore operation shapes.',
